@@ -400,11 +400,21 @@ func rtspSeeds(listener string, port int, transport string, thoroughOnly bool) [
 	// RTSP tunnelled in WebSocket
 	ws := "GET /cam HTTP/1.1\r\nHost: 127.0.0.1\r\nConnection: Upgrade\r\nUpgrade: websocket\r\nSec-WebSocket-Version: 13\r\n" +
 		"Sec-WebSocket-Key: dGhlIHNhbXBsZSBub25jZQ==\r\nSec-WebSocket-Protocol: rtsp.onvif.org\r\n\r\n"
+	f1 := wsFrame(rtspReq(base.Options, base0, base.Header{"CSeq": cseq(1)}, nil))
+	f1.WaitResp = true // a WebSocket client waits for "101 Switching Protocols" before it sends frames
 	seeds = append(seeds, mk("websocket-tunnel", true,
 		tm("upgrade", []byte(ws)),
-		wsFrame(rtspReq(base.Options, base0, base.Header{"CSeq": cseq(1)}, nil)),
+		f1,
 		wsFrame(rtspReq(base.Describe, base0, base.Header{"CSeq": cseq(2)}, nil)),
 	))
+	// the same, with the first frame pipelined behind the upgrade request (one TCP write)
+	f2 := wsFrame(rtspReq(base.Options, base0, base.Header{"CSeq": cseq(1)}, nil))
+	pip := tm("upgrade+frame", append([]byte(ws), f2.Data...))
+	for _, f := range f2.Fields {
+		f.Off += len(ws)
+		pip.Fields = append(pip.Fields, f)
+	}
+	seeds = append(seeds, mk("websocket-tunnel-pipelined", false, pip))
 	return seeds
 }
 
